@@ -405,6 +405,15 @@ func (p *sparser) primary() Expr {
 			p.expect(")")
 			return e
 		}
+		if t.s == "[" && p.isOp("]") {
+			// slice type used as a conversion: []byte(e)
+			p.next()
+			n := p.next()
+			if n.k != "id" {
+				panic("element type expected after []")
+			}
+			return &EId{"[]" + n.s}
+		}
 	}
 	panic(fmt.Sprintf("unexpected %q", t.s))
 }
